@@ -230,6 +230,13 @@ class RoundTrip(Relation):
             'own_frame': st.booleans(),
             'regions': st.lists(region_strategy(), min_size=1, max_size=4),
             'edits': st.lists(st.integers(0, 9), min_size=1, max_size=4),
+            # labels given to the whole LIST (in order): what one region's
+            # label needs - which quote character - must not carry over to
+            # the next region written by the same call
+            'labels': st.one_of(st.none(), st.none(), st.lists(
+                st.sampled_from(["it's", '30"', "3'", '"M 31" field', 'plain',
+                                 'a, b', "x' y", 'say "hi"']),
+                min_size=2, max_size=4)),
         })
 
     def check(self, sp, ctx):
@@ -269,6 +276,11 @@ class RoundTrip(Relation):
             if not specs:
                 return
         specs = [enforce(r, nd, radunit) for r in specs]
+        if sp.get('labels'):
+            ctx.label('list-labels')
+            specs = [r if r['cls'].startswith('Text') else dict(r, meta=dict(
+                r.get('meta') or {}, label=sp['labels'][i % len(sp['labels'])]))
+                for i, r in enumerate(specs)]
         regs = [S.build(r) for r in specs]
         before = [fp(r) for r in regs]
         opts = dict(coordsys=coordsys, fmt=fmt, radunit=radunit)
